@@ -121,6 +121,8 @@ Fixpoint bcast (fuel : nat) (o : binop) (a b : val) (w : world) {struct fuel} : 
       | x :: r, y :: s => do xw <- bcast f o x y w; do rw <- zip_l r s (snd xw); Ok (fst xw :: fst rw, snd rw)
       | _, _ => Exc "ValueError" end in
   match a, b with
+  | VList [x], VList ((_ :: _ :: _) as lb) => do r <- map_l lb (fun y w => bcast f o x y w) w; Ok (VList (fst r), snd r)   (* an axis of length 1 is stretched *)
+  | VList ((_ :: _ :: _) as la), VList [y] => do r <- map_l la (fun x w => bcast f o x y w) w; Ok (VList (fst r), snd r)
   | VList la, VList lb =>
       match la, lb with
       | VList _ :: _, VList _ :: _ => do r <- zip_l la lb w; Ok (VList (fst r), snd r)        (* matrix, matrix *)
@@ -152,7 +154,8 @@ Fixpoint map1 (fuel : nat) (g : xreal -> world -> res (xreal * world)) (a : val)
   | _ => match to_x a with Some x => lift_x (g x w) | None => Stuck "map1" end
   end end.
 Definition np_outer (u v : val) (w : world) : res (val * world) :=
-  match u, v with
+  let as_vec (x : val) := match x with VList _ => x | VNum _ | VInt _ => VList [x] | _ => x end in     (* numpy flattens; a scalar is a 1-vector *)
+  match as_vec u, as_vec v with
   | VList lu, VList lv =>
       do r <- (fix go (l : list val) (w : world) : res (list val * world) :=
                  match l with [] => Ok ([], w) | x :: r => do xw <- bcast 3 Mul x (VList lv) w; do rw <- go r (snd xw); Ok (fst xw :: fst rw, snd rw) end) lu w;
